@@ -306,7 +306,7 @@ def _is_suffix_trim_of(body, len_call, target):
 def constant_index_guarded(body, t, block):
     """`x[k]` with a literal k: discharged when the call is dominated by the true edge of a test `x.len() == n` (n > k),
     `x.len() > k`, `x.len() >= k+1` or `!x.is_empty()` (k = 0) on a place of the same type reached through the same field."""
-    if not fn_matches(t, r"ops::Index(Mut)?<.*>>::index(_mut)?$", r"ops::Index(Mut)?::index(_mut)?$") or len(t["args"]) < 2:
+    if not fn_matches(t, r"ops::Index(Mut)?<.*>>::index(_mut)?$", r"ops::Index(Mut)?::index(_mut)?$", r"vec::Vec::<T, A>::(remove|swap_remove)$") or len(t["args"]) < 2:
         return False
     k = (op_const(t["args"][1]) or {}).get("int")
     if k is None:
@@ -353,7 +353,7 @@ def constant_index_guarded(body, t, block):
 
 def switch_on_len_guarded(body, t, block):
     """`x[k]` inside the `n =>` arm (n > k) of `match x.len()`"""
-    if not fn_matches(t, r"ops::Index(Mut)?<.*>>::index(_mut)?$", r"ops::Index(Mut)?::index(_mut)?$") or len(t["args"]) < 2:
+    if not fn_matches(t, r"ops::Index(Mut)?<.*>>::index(_mut)?$", r"ops::Index(Mut)?::index(_mut)?$", r"vec::Vec::<T, A>::(remove|swap_remove)$") or len(t["args"]) < 2:
         return False
     k = (op_const(t["args"][1]) or {}).get("int")
     if k is None:
@@ -430,6 +430,15 @@ def discharged(body, site):
                 return "format_ident! of text that is one of the identifiers %s on every path" % sorted(texts)
         except Exception:
             pass
+    if fn_matches(t, r"option::Option::<T>::(expect|unwrap)$") and t["args"] and op_local(t["args"][0]) is not None:
+        # `arr.split_last().expect(..)` / `first()` / `last()` on an array whose length is a positive constant
+        for o in M.origins(body, op_local(t["args"][0]), identity=[]):
+            if o["kind"] == "call" and fn_matches(o["t"], r"slice::<impl \[T\]>::(split_last|split_first|first|last|split_last_mut|split_first_mut|first_mut|last_mut)$") and o["t"]["args"]:
+                seen_l = set()
+                M.origins(body, op_local(o["t"]["args"][0]), visited=seen_l) if op_local(o["t"]["args"][0]) is not None else None
+                lens = [int(m.group(1)) for l in seen_l for m in [re.search(r"^&?\[.*; (\d+)\]$", body.local_ty(l) or "")] if m]
+                if lens and min(lens) > 0:
+                    return "first/last element of an array of constant length %d" % min(lens)
     if index_in_range_by_construction(body, t):
         return "index is position(..)/len() of the collection it is applied to"
     if constant_index_guarded(body, t, site["block"]) or switch_on_len_guarded(body, t, site["block"]):
